@@ -4,7 +4,8 @@
 # under /verif/seeded/Cxx-n/. Never touches /repo.
 set -u
 P=$1; N=$2; shift 2
-WT=/tmp/mut_$P; OUT=/tmp/mutout_$P; DST=/verif/seeded/$P-$N
+# optional: MUT_OUT=<dir with patchN.diff/demoN.py/metaN.json> MUT_DST=<index used under seeded/>
+WT=/tmp/mut_$P; OUT=${MUT_OUT:-/tmp/mutout_$P}; DN=${MUT_DST:-$N}; DST=/verif/seeded/$P-$DN
 [ -d "$WT" ] || git -C /repo worktree add -q "$WT" HEAD
 git -C "$WT" checkout -q -- . ; git -C "$WT" clean -fdq -e '*.pyc' >/dev/null 2>&1
 mkdir -p "$DST"; cp "$OUT/patch$N.diff" "$DST/patch.diff"; cp "$OUT/demo$N.py" "$DST/demo.py"
@@ -20,13 +21,12 @@ cp "evidence/$P.json" "$DST/evidence_patched.json" 2>/dev/null
 mv "/tmp/evidence_$P.bak" "evidence/$P.json" 2>/dev/null
 git -C "$WT" checkout -q -- .
 viol=$(grep -c '^VIOLATION' "$DST/check_patched.out")
-echo "$P-$N: demo clean=$d0 patched=$d1 | suite: $suite | check exit=$c1 violations=$viol"
+echo "$P-$DN: demo clean=$d0 patched=$d1 | suite: $suite | check exit=$c1 violations=$viol"
 grep '^VIOLATION' "$DST/check_patched.out" | head -3
-python3 - "$P" "$N" "$d0" "$d1" "$suite" "$c1" "$viol" "$*" <<'PY'
+python3 - "$P" "$N" "$OUT" "$DST" "$d0" "$d1" "$suite" "$c1" "$viol" "$*" <<'PY'
 import json,sys,os
-P,N,d0,d1,suite,c1,viol,args=sys.argv[1:9]
-dst=f"/verif/seeded/{P}-{N}"
-meta=json.load(open(f"/tmp/mutout_{P}/meta{N}.json")) if os.path.exists(f"/tmp/mutout_{P}/meta{N}.json") else {}
+P,N,out,dst,d0,d1,suite,c1,viol,args=sys.argv[1:11]
+meta=json.load(open(f"{out}/meta{N}.json")) if os.path.exists(f"{out}/meta{N}.json") else {}
 meta.update({"property":P,"confirmed":{"demo_exit_clean":int(d0),"demo_exit_patched":int(d1),"pinned_suite_patched":suite.strip(),
  "check_cmd":f"PYODA_REPO=/tmp/mut_{P} ./check {P} --no-proof {args}".strip(),"check_exit":int(c1),"violation_lines":int(viol)},
  "caught": int(c1)==1 and int(viol)>0})
